@@ -1,5 +1,5 @@
 // Translation unit for bout_content_matches() (C12-K1), sliced verbatim from src/uncrustify.cpp.
-#include "/repo/src/token_enum.h"
+#include "token_enum.h"      /* from the working tree: -I <repo>/src */
 #define VERIF_E_TOKEN
 #include "base.h"
 #include "containers.h"
